@@ -82,8 +82,54 @@ pub fn spell(b: &[u8], variant: u64, in_query: bool, literal_ok: &[u8]) -> Strin
 }
 pub const NSPELL: u64 = 5;
 
+/// Earlier traffic on the same thread: refused requests that stop half-way through some phase.
+/// Completeness must not depend on what the thread validated before (non-initial states).
+fn prelude(index: u64) {
+    thread_local! {
+        static PRELUDES: Vec<Case> = {
+            let now = e2e::base_instant();
+            let mut v = Vec::new();
+            for (path, query, body) in [
+                ("/", Some("Action=ListUsers%zz&b=2"), None),
+                ("/", Some("Act%zzion=1&X-Amz-Algo"), None),
+                ("/abc%zz/def", Some("k=v"), None),
+                ("/", Some("k=v"), Some("a=1&Action=ListUsers%zz")),
+                ("/x", Some("k=abc%"), None),
+            ] {
+                let mut p = e2e::base_plan(Carrier::Header);
+                p.wire_path = Some(path.to_string());
+                p.wire_query = query.map(|q: &str| q.to_string());
+                let mut cfg = Cfg::basic(now);
+                if let Some(b) = body {
+                    p.method = "POST".into();
+                    p.body = b.as_bytes().to_vec();
+                    p.headers.push(("Content-Type".into(), b"application/x-www-form-urlencoded".to_vec()));
+                    cfg.fold = true;
+                }
+                v.push(Case { wire: WireReq::from_wire(&build(&p).wire), cfg, prov: ProvSpec::standard() });
+            }
+            // a wrong signature and an expired request
+            let mut p = e2e::base_plan(Carrier::Query);
+            p.key[0] ^= 1;
+            v.push(Case { wire: WireReq::from_wire(&build(&p).wire), cfg: Cfg::basic(now), prov: ProvSpec::standard() });
+            let p = e2e::base_plan(Carrier::Header);
+            v.push(Case { wire: WireReq::from_wire(&build(&p).wire), cfg: Cfg::basic(refmodel::Instant::new(now.secs + 7200, 0)), prov: ProvSpec::standard() });
+            v
+        };
+    }
+    // every other case starts from a non-initial state; which refusal precedes it rotates with the index
+    if index % 2 == 1 {
+        PRELUDES.with(|ps| {
+            let c = &ps[((index / 2) % ps.len() as u64) as usize];
+            let mut p = c.prov.to_provider();
+            let _ = crate::sut::validate(&c.wire, &c.cfg, &mut p);
+        });
+    }
+}
+
 /// Validate a reference-signed plan; it must be accepted.
 pub fn expect_accept(index: u64, plan: &Plan, cfg: Cfg, st: &mut Stats, tag: &str) {
+    prelude(index);
     let built = build(plan);
     let wire = WireReq::from_wire(&built.wire);
     let case = Case { wire, cfg, prov: ProvSpec::standard() };
@@ -473,7 +519,7 @@ pub fn run(ctx: &Ctx) -> Report {
     Report {
         stats: st,
         rule: format!(
-            "requests signed by the independent reference signer from decoded data, then spelled on the wire: (A) every path of <= {} segments over {} segment values x trailing slash x {} spellings per segment x carrier x {{standard,S3}}; (B) every list of <= {} parameters over {} names x {} values, full product of {} spellings per element for <= 2 parameters and one element at a time above, x carrier; (C) 9 header sets x 6 Authorization parameter orders x 4 separators x 2 leads x 3 name cases x X-Amz-Date/Date x extras signed or not; (D) 6 bodies x 5 content types x {{default,S3,fold}} x carrier x 4 tokens (incl. the empty one) x 6 methods x URL parameters; (E) 9 clock offsets in [-15min,+15min] incl. +-1ns from the bounds x 4 server instants x 6 date renderings x carrier; (F) 1080 rich combinations. Oracle: accepted, provider asked exactly once with (access key, token, UTC date, region, service). states = distinct reference canonical requests; non-trivial = distinct (wire request, options, clock)",
+            "requests signed by the independent reference signer from decoded data, then spelled on the wire: (A) every path of <= {} segments over {} segment values x trailing slash x {} spellings per segment x carrier x {{standard,S3}}; (B) every list of <= {} parameters over {} names x {} values, full product of {} spellings per element for <= 2 parameters and one element at a time above, x carrier; (C) 9 header sets x 6 Authorization parameter orders x 4 separators x 2 leads x 3 name cases x X-Amz-Date/Date x extras signed or not; (D) 6 bodies x 5 content types x {{default,S3,fold}} x carrier x 4 tokens (incl. the empty one) x 6 methods x URL parameters; (E) 9 clock offsets in [-15min,+15min] incl. +-1ns from the bounds x 4 server instants x 6 date renderings x carrier; (F) 1080 rich combinations. Every second case is preceded, on the same thread, by one of 7 refused requests (bad escapes half-way through a query key / value / path / form body, wrong signature, expired) so that acceptance is also checked from non-initial states. Oracle: accepted, provider asked exactly once with (access key, token, UTC date, region, service). states = distinct reference canonical requests; non-trivial = distinct (wire request, options, clock)",
             nseg, SEGS.len(), NSPELL, nq, QNAMES.len(), QVALUES.len(), NSPELL
         ),
         bounds: json!({"path_segments": nseg, "query_params": nq, "cases_enumerated": base}),
